@@ -134,16 +134,17 @@ Theorem C14_patterned_weights :
 Proof. exact patterned_weights. Qed.
 Print Assumptions C14_patterned_weights.
 
-(** * (A) FGG level: json_to_fgg (fgg_to_json g)
-    the grammar is isomorphic (through [FGG.from_hrg], which keeps the label table since the repair
-    of F20, commit 450bcaa), the domains are equal and every factor denotes the same dense tensor
-    entry by entry (whatever its sparsity pattern, infinities included).
-    Guard [factor_wf]: factors are bound to registered terminals with domains, have the right
-    shape, can be densified, and no dimension is empty (F21, not repaired, below). *)
+(** * (A) FGG level: json_to_fgg (fgg_to_json g), for every well-formed FGG
+    [wf_fgg g]: the grammar is well formed and the factors satisfy the invariants that [add_factor] /
+    [FiniteFactor] enforce (bound to a registered terminal whose node labels have domains; weights
+    of the shape of the domains, densifiable).
+    The grammar is isomorphic (through [FGG.from_hrg], which keeps the label table since 450bcaa), the
+    domains are equal and every factor denotes the same dense tensor entry by entry (whatever its
+    sparsity pattern, infinities included; factors with an empty dimension keep their shape since
+    38f8bd3). *)
 Theorem C14_fgg_roundtrip :
   forall (dec : nat -> str) (g : fgg) (c : nat),
-    wf_hrg (f_hrg g) = true ->
-    Forall (factor_wf (h_labels (f_hrg g)) (f_domains g)) (f_factors g) ->
+    wf_fgg g ->
     exists j g',
       fgg_to_json_model dec g = Ok j /\ json_to_fgg_model c j = Ok g' /\
       hrg_iso (f_hrg g) (f_hrg g') /\
@@ -152,11 +153,11 @@ Theorem C14_fgg_roundtrip :
 Proof. exact fgg_roundtrip. Qed.
 Print Assumptions C14_fgg_roundtrip.
 
-(** F21 (found by this check, not repaired): a finite factor whose weights have shape (0, 3) is
-    written as the empty list and read back with shape (0,): ValueError.  This is why
-    [C14_fgg_roundtrip] keeps the guard "no empty dimension". *)
+(** the behaviour before the repair of F21 (commit 38f8bd3), about the explicitly named old
+    definition [json_to_fgg_model_old] (Proofs/Json_findings.v): a finite factor whose weights have
+    shape (0, 3) was written as the empty list and read back with shape (0,): ValueError *)
 Theorem C14_fgg_roundtrip_empty_domain_refuted :
   forall dec, wf_hrg f21_hrg = true /\
-    exists j, fgg_to_json_model dec f21_fgg = Ok j /\ json_to_fgg_model 0 j = Err ValueErr.
-Proof. exact f21_refuted. Qed.
+    exists j, fgg_to_json_model dec f21_fgg = Ok j /\ json_to_fgg_model_old 0 j = Err ValueErr.
+Proof. exact f21_old_refuted. Qed.
 Print Assumptions C14_fgg_roundtrip_empty_domain_refuted.
